@@ -39,7 +39,7 @@ PROPS = {
                        "pairs must agree; kind ranges of enum Types disjoint/ordered; interface table slot i holds id base+i; mpt_type_traits() is "
                        "abstractly evaluated for every id with a row and must reach the table that row lives in. REGRANGE: interval analysis of the four "
                        "registration functions: every id returned/stored lies in [Base,Max] of its kind; capacity constants equal Max-Base+1. "
-                       "MEMCPYSIZE: memcpy(dst,&obj,sizeof X) copies the whole object.",
+                       "MEMCPYSIZE: memcpy(dst,&obj,sizeof X) copies the whole object. LAZYORDER: table scans (duplicate-name checks, lookups) run only after the lazy-initialisation test of that table.",
         "not_decided": "uniqueness/stability over registration histories (append-only shape not yet checked), name lookup results, duplicate-name refusal polarity",
         "assumptions": ["x86_64 type widths from clang TargetInfo"],
         "technique": "constant-table extraction from the folded AST + sibling agreement; interval analysis of id-producing sites; abstract evaluation of the id dispatch",
@@ -49,6 +49,7 @@ PROPS = {
         "rules": [
             {"run": rules_table.run_typemap, "floor": 120, "scope": "anchors"},
             {"run": rules_table.run_regrange, "floor": 6},
+            {"run": rules_path.run_lazyorder, "floor": 2, "use_anchor_files": True},
             {"run": rules_table.run_memcpysize, "floor": 3, "ctx": {"files": ["mptcore/types/type_traits.c"]}},
         ],
     },
@@ -66,7 +67,9 @@ PROPS = {
                       "every code value the encoder can emit (255 codes x 2 regular codecs evaluated). Not the byte-level round trip.",
         "level_note": "trusts clang constant folding of the macro-expanded formulas; pattern anchors: `++code == E`, conditional `c + K`, `_ctx & 0xff`",
         "rules": [
+            {"run": rules_path.run_steppair, "floor": 1, "use_anchor_files": True},
             {"run": rules_codec.run, "floor": 20},
+            {"run": rules_path.run_resumesave, "floor": 2, "use_anchor_files": True},
         ],
     },
     "C20": {
@@ -95,7 +98,8 @@ PROPS = {
         "explanation": "ERRFX on every queue primitive (functions in the anchor files taking a non-const queue): trace-partitioned interval analysis shows no path that "
                        "stores into the queue (fields or storage via memcpy/memmove/memset) and then returns an error. DIVZERO: every divisor in the queue files excludes 0 "
                        "on all paths. OUTPARAM: callee summaries (which return classes leave *out unwritten) against callers that discard the result and read the local. "
-                       "STATUSPOLARITY: callees returning negative errors and positive successes are not tested by truthiness. DECWRAP on loop counters.",
+                       "STATUSPOLARITY: callees returning negative errors and positive successes are not tested by truthiness. SPLITCOPY: a destination filled by two consecutive "
+                       "copies continues where the first ended (segment copies across the wrap point).",
         "not_decided": "deque equivalence and storage bounds of the (len,max,off) segment arithmetic (relational), e.g. the wrapped copy lengths in mpt_qpop",
         "assumptions": [],
         "technique": "interval analysis with trace partitioning (effect-before-refusal), divisor intervals, interprocedural out-parameter and return-value summaries",
@@ -103,6 +107,7 @@ PROPS = {
                       "for all paths of the 18 queue files; not the byte-sequence equivalence.",
         "level_note": "effects = direct stores through the queue pointer and mem* writes into it; callee effects are attributed to the callee",
         "rules": [
+            {"run": rules_path.run_splitcopy, "floor": 2, "use_anchor_files": True},
             {"run": rules_effect.run_objects, "floor": 10, "ctx": {"records": ["mpt_queue", "queue"], "min_functions": 10}, "use_anchor_files": True},
             {"run": rules_path.run_divzero, "floor": 4, "use_anchor_files": True},
             {"run": rules_path.run_outparam_ignored, "floor": 4, "use_anchor_files": True},
@@ -141,13 +146,15 @@ PROPS = {
         "level_text": "Decides that the fragment cursor never leaves the fragment list and every loop terminates on its own exit test, for all 10 message files; not the value equivalence.",
         "level_note": "companion count inferred from struct message fields (cont/clen), locals loaded from them, or the integer parameter following an iovec parameter",
         "rules": [
+            {"run": rules_path.run_steppair, "floor": 1, "use_anchor_files": True},
             {"run": rules_path.run_cursor, "floor": 6, "use_anchor_files": True},
             {"run": rules_path.run_decwrap, "floor": 1, "use_anchor_files": True},
             {"run": rules_path.run_progress, "floor": 15, "use_anchor_files": True},
         ],
     },
     "C03": {
-        "explanation": "PROGRESS: every loop of the frame decoders, mpt_message_read and the queue receive/peek functions changes something one of its exit conditions reads, so "
+        "explanation": "RESUMESAVE: the 'need more input / more space' exits of a resumable decoder save the same set of state fields (sibling agreement over the exits of one function: "
+                       "a set saved by at least three exits must not be saved partially by another). PROGRESS: every loop of the frame decoders, mpt_message_read and the queue receive/peek functions changes something one of its exit conditions reads, so "
                        "each decoder call terminates for every byte string and segmentation. CURSOR: the source iovec cursor is only advanced after a successful "
                        "`if (!count--) return` test, i.e. never past the sourcelen elements the caller passed.",
         "not_decided": "byte-level bounds of the in-place decode (dst <= src, proc accounting), honesty of the delivered message, rejection of malformed input; a mutant that only breaks the proc bookkeeping is invisible here",
@@ -158,6 +165,7 @@ PROPS = {
         "rules": [
             {"run": rules_path.run_progress, "floor": 15, "use_anchor_files": True},
             {"run": rules_path.run_cursor, "floor": 6, "use_anchor_files": True},
+            {"run": rules_path.run_resumesave, "floor": 2, "use_anchor_files": True},
         ],
     },
     "C04": {
@@ -180,6 +188,7 @@ PROPS = {
                               "mptcore/array/array_push.c", "mptcore/array/array_message.c", "mptcore/message/message_append.c"],
         "rules": [
             {"run": rules_cow.run, "floor": 20, "use_anchor_files": True},
+            {"run": rules_cow.run_sliceoff, "floor": 2, "use_anchor_files": True},
             {"run": rules_path.run_nullcontra, "floor": 60, "use_anchor_files": True},
             {"run": rules_path.run_objsize, "floor": 15, "use_anchor_files": True},
             {"run": rules_path.run_statuspolarity, "floor": 5, "use_anchor_files": True},
@@ -264,6 +273,7 @@ PROPS = {
             {"run": rules_traits.run_finiloop, "floor": 6},
             {"run": rules_traits.run_deadfini, "floor": 3},
             {"run": rules_traits.run_detachcopy, "floor": 2},
+            {"run": rules_traits.run_retype, "floor": 2},
             {"run": rules_path.run_usednotsize, "floor": 20},
             {"run": rules_path.run_bufmix, "floor": 1},
             {"run": rules_path.run_uaf, "floor": 3, "use_anchor_files": True},
@@ -306,6 +316,7 @@ PROPS = {
             {"run": rules_effect.run_named, "floor": 1, "ctx": {"functions": [["mpt_parse_node", 0]]}},
             {"run": rules_path.run_ctypearg, "floor": 6, "use_anchor_files": True},
             {"run": rules_ident.run_narrow, "floor": 1, "use_anchor_files": True, "ctx": {"records": ["mpt_path", "path"]}},
+            {"run": rules_path.run_validreset, "floor": 3},
             {"run": rules_path.run_nullcontra, "floor": 20, "use_anchor_files": True},
             {"run": rules_path.run_uaf, "floor": 1, "use_anchor_files": True},
             {"run": rules_path.run_objsize, "floor": 2, "use_anchor_files": True},
@@ -321,10 +332,13 @@ PROPS = {
         "level_text": "Decides only the 'values of any length' clause through its two structural necessary conditions; the rest of the property is not decided statically.",
         "level_note": "",
         "rules": [
+            {"run": rules_table.run_inlinecap, "floor": 1},
+            {"run": rules_path.run_reservecap, "floor": 2, "use_anchor_files": True},
             {"run": rules_ident.run_narrow, "floor": 5, "use_anchor_files": True, "ctx": {"records": ["mpt_parser_context", "parser_context"]}},
             {"run": rules_path.run_objsize, "floor": 2, "use_anchor_files": True},
             {"run": rules_path.run_statuspolarity, "floor": 2, "use_anchor_files": True},
             {"run": rules_layout.run_convdest, "floor": 60, "scope": "anchors"},
+            {"run": rules_path.run_validreset, "floor": 3},
             {"run": rules_path.run_nullcontra, "floor": 10, "use_anchor_files": True},
             {"run": rules_path.run_uaf, "floor": 1, "use_anchor_files": True},
         ],
